@@ -51,9 +51,13 @@ Notation "x <~ p ;; k" := (pbind p (fun x => k)) (at level 61, p at next level, 
 Definition plift {A} (r : res A) : parser A := fun s =>
   match r with Ok a => (Ok (a, s), 0) | Err e => (Err e, 0) | Panic p => (Panic p, 0) end.
 
+(* `len s < n`, decided by looking at no more than n elements (lists can be 200 kB) *)
+Definition shorter (s : list Z) (n : Z) : bool :=
+  Nat.ltb (length (firstn (Z.to_nat n) s)) (Z.to_nat n).
+
 (* Read::read_exact on &[u8] with an n-byte buffer *)
 Definition read_n (n : nat) : parser (list Z) := fun s =>
-  if len s <? Z.of_nat n then (Err E_IO, 0)
+  if shorter s (Z.of_nat n) then (Err E_IO, 0)
   else (Ok (firstn n s, skipn n s), Z.of_nat n).
 
 Definition dec_int (le : bool) (b : list Z) : Z := if le then dec_le b else dec_be b.
@@ -213,13 +217,13 @@ Definition PID_SENTINEL : Z := 1.
 
 (* Parameter::try_read_from_bytes *)
 Definition read_param (le : bool) : parser param := fun s =>
-  if len s <? 4 then (Err E_NOTENOUGH, 0) else
+  if shorter s 4 then (Err E_NOTENOUGH, 0) else
   let pid := to_signed 16 (dec_int le (firstn 2 s)) in
   let length := dec_int le (firstn 2 (skipn 2 s)) in
   let s' := skipn 4 s in
   if negb (pid =? PID_SENTINEL) && negb (length mod 4 =? 0) then (Err E_INVALID, 4) else
   if pid =? PID_SENTINEL then (Ok (mk_param pid [], s'), 4) else
-  if len s' <? length then (Err E_NOTENOUGH, 4) else
+  if shorter s' length then (Err E_NOTENOUGH, 4) else
   (Ok (mk_param pid (firstn (Z.to_nat length) s'), skipn (Z.to_nat length) s'), 4 + ARC_HDR + length).
 
 (* ParameterList::try_read_from_bytes, MAX_PARAMETERS = 2^16 iterations *)
@@ -333,7 +337,7 @@ Definition parse_pad (fl : Z) (v : list Z) : res psub * Z := (Ok Pad, 0).
 (* DataSubmessage::try_from_bytes; sublen = submessage_length of the header *)
 Definition parse_data (fl sublen : Z) (data : list Z) : res psub * Z :=
   let le := is_le fl in
-  if len data <? sublen then (Err E_INVALID, 0) else
+  if shorter data sublen then (Err E_INVALID, 0) else
   match (_ <~ read_u16 le ;; o <~ read_u16 le ;; rid <~ read_entity_id ;; wid <~ read_entity_id ;;
          sn <~ read_sn le ;; pret (o + 4, rid, wid, sn)) data with
   | (Err e, c) => (Err e, c)
@@ -356,8 +360,8 @@ Definition parse_data (fl sublen : Z) (data : list Z) : res psub * Z :=
 (* DataFragSubmessage::try_from_bytes *)
 Definition parse_data_frag (fl sublen : Z) (data : list Z) : res psub * Z :=
   let le := is_le fl in
-  if len data <? sublen then (Err E_INVALID, 0) else
-  if len data <? 32 then (Err E_NOTENOUGH, 0) else
+  if shorter data sublen then (Err E_INVALID, 0) else
+  if shorter data 32 then (Err E_NOTENOUGH, 0) else
   match (_ <~ read_u16 le ;; o <~ read_u16 le ;; rid <~ read_entity_id ;; wid <~ read_entity_id ;;
          sn <~ read_sn le ;; fs <~ read_u32 le ;; fc <~ read_u16 le ;; fz <~ read_u16 le ;;
          ds <~ read_u32 le ;; pret (o + 4, rid, wid, sn, fs, fc, fz, ds)) data with
@@ -407,7 +411,7 @@ Fixpoint sub_loop (fuel : nat) (v : list Z) : res (list psub) * Z :=
       match v with
       | id :: fl :: b2 :: b3 :: v' =>
           let sublen := sublen_of fl b2 b3 in
-          if len v' <? sublen then (Ok [], 5) else
+          if shorter v' sublen then (Ok [], 5) else
           match parse_sub id fl sublen v' with
           | (Panic x, c) => (Panic x, 5 + c)
           | (Err _, c) =>
@@ -435,7 +439,7 @@ Fixpoint list_eqb (a b : list Z) : bool :=
   end.
 
 Definition parse_message_cost (v : list Z) : res (hdr * list psub) * Z :=
-  if len v <? 20 then (Err E_NOTENOUGH, 0) else
+  if shorter v 20 then (Err E_NOTENOUGH, 0) else
   if negb (list_eqb (firstn 4 v) RTPS_MAGIC) then (Err E_INVALID, 0) else
   let h := mk_hdr (firstn 2 (skipn 4 v)) (firstn 2 (skipn 6 v)) (firstn 12 (skipn 8 v)) in
   match sub_loop MAX_SUBMESSAGES (skipn 20 v) with
@@ -573,6 +577,7 @@ Definition canon_sub (s : usub) : usub :=
   | DataFrag q k n rid wid sn a b c d qos p =>
       DataFrag q k n rid wid sn a b c d (if q then map pad_param qos else []) p
   | InfoTs i s f => if i then InfoTs true u32_max u32_max else InfoTs false s f
+  | InfoReply m u mu => InfoReply m u (if m then mu else [])
   | other => other
   end.
 
@@ -663,7 +668,7 @@ Fixpoint visits (fuel : nat) (v : list Z) : list (Z * Z * Z * list Z) :=
       match v with
       | id :: fl :: b2 :: b3 :: v' =>
           let sublen := sublen_of fl b2 b3 in
-          if len v' <? sublen then [] else
+          if shorter v' sublen then [] else
           (id, fl, sublen, v') ::
           match fst (parse_sub id fl sublen v') with
           | Panic _ => []
@@ -674,7 +679,7 @@ Fixpoint visits (fuel : nat) (v : list Z) : list (Z * Z * Z * list Z) :=
       end
   end.
 Definition message_visits (v : list Z) : list (Z * Z * Z * list Z) :=
-  if len v <? 20 then [] else if negb (list_eqb (firstn 4 v) RTPS_MAGIC) then [] else
+  if shorter v 20 then [] else if negb (list_eqb (firstn 4 v) RTPS_MAGIC) then [] else
   visits MAX_SUBMESSAGES (skipn 20 v).
 
 (* D11: a NACK_FRAG whose FragmentNumberSet is complete on the wire (base, numBits and
@@ -688,30 +693,39 @@ Fixpoint words_at (le : bool) (n : nat) (s : list Z) : list Z :=
 Definition iota (n : Z) : list Z := map Z.of_nat (seq 0 (Z.to_nat n)).
 Definition fnset_bad (le : bool) (body : list Z) : bool :=
   let s := skipn 16 body in
-  if len s <? 8 then false else
+  if shorter body 24 then false else
   let base := dec_int le (firstn 4 s) in
   let nb := dec_int le (firstn 4 (skipn 4 s)) in
   let m := Z.min 8 (div_ceil32 nb) in
-  if len s <? 8 + 4 * m then false else
+  if shorter s (8 + 4 * m) then false else
   let ws := pad8 (words_at le (Z.to_nat m) (skipn 8 s)) in
   (256 <? nb) || existsb (fun i => bit_set ws i && (u32_max <? base + i)) (iota (Z.min nb 256)).
 Definition C07_known_fnset (v : list Z) : bool :=
-  existsb (fun x => match x with (id, fl, _, body) => (id =? ID_NACK_FRAG) && fnset_bad (is_le fl) body end)
+  existsb (fun x => match x with (id, fl, _, body) =>
+                      if id =? ID_NACK_FRAG then fnset_bad (is_le fl) body else false end)
           (message_visits v).
 
 (* INFO_REPLY reads its locator lists from the whole rest of the datagram, not from its
    own submessage_length bytes: a locator count that does not fit in the submessage *)
 Definition locs_overread (le : bool) (mflag : bool) (sublen : Z) (body : list Z) : bool :=
-  if len body <? 4 then false else
+  if shorter body 4 then false else
   let n1 := dec_int le (firstn 4 body) in
   if sublen <? 24 * n1 then true else
   if negb mflag then false else
   let s2 := skipn (Z.to_nat (4 + 24 * n1)) body in
-  if len s2 <? 4 then false else
+  if shorter s2 4 then false else
   sublen <? 24 * dec_int le (firstn 4 s2).
 Definition C07_known_overread (v : list Z) : bool :=
   existsb (fun x => match x with (id, fl, sublen, body) =>
-                      (id =? ID_INFO_REPLY) && locs_overread (is_le fl) (flag fl 1) sublen body end)
+                      if id =? ID_INFO_REPLY then locs_overread (is_le fl) (flag fl 1) sublen body else false end)
+          (message_visits v).
+
+(* a DATA / DATA_FRAG with submessage_length 0 ("until the end of the datagram") whose parse
+   fails: nothing is consumed and the loop goes on inside bytes it has already scanned *)
+Definition C07_known_rescan (v : list Z) : bool :=
+  existsb (fun x => match x with (id, fl, sublen, body) =>
+                      if ((id =? ID_DATA) || (id =? ID_DATA_FRAG)) && (sublen =? 0)
+                      then negb (is_ok (fst (parse_sub id fl sublen body))) else false end)
           (message_visits v).
 
 (* the linear bound claimed outside the over-read class *)
